@@ -387,6 +387,14 @@ def r8_class_table(repo):
     return class_table_rule(repo, "C09-R8")
 
 
+def r9_supertype_closure(repo):
+    """find_supertypes and the relevance test of find_irrelevant_type rest on Type.get_supertypes, a worklist closure over
+    `.supertypes`: seed, complete expansion, push iff unvisited (same schema as the graph queries of C19)"""
+    from .c19 import closure_obligations
+    return closure_obligations(repo.method("src.ir.types.Type", "get_supertypes", inherited=False), "C09-R9",
+                               "Type.get_supertypes", "self", "supertypes")
+
+
 def rules():
     return [
         RuleSpec("C09-R1", "_find_types: what enters the result / self / concreteness / modes", 9, r1_r2_r3_find_types),
@@ -394,6 +402,7 @@ def rules():
         RuleSpec("C09-R5", "find_irrelevant_type: top type, bound, pool, final relatedness test", 6, r5_r6_irrelevant),
         RuleSpec("C09-R7", "nested searches for type arguments are concrete and run in the direction the variance demands", 4, r7_nested_concrete),
         RuleSpec("C09-R8", "the class table handed to the searches: declarations, invariant built-in instantiations", 2, r8_class_table),
+        RuleSpec("C09-R9", "the supertype closure is complete (worklist over .supertypes)", 6, r9_supertype_closure),
     ]
 
 
